@@ -19,6 +19,11 @@ Theorem writer_valid_json : forall c tid, writable c -> validate_json (to_json_t
 Proof. exact ValidatorProofs.writer_valid_json. Qed.
 Print Assumptions writer_valid_json.
 
+(* the same for the streamed (direct_io) form of the writer, whose keys come in another order *)
+Theorem writer_valid_json_direct : forall c tid, writable c -> validate_json (to_json_tree_direct c tid) = true.
+Proof. exact ValidatorProofs.writer_valid_json_direct. Qed.
+Print Assumptions writer_valid_json_direct.
+
 Example writer_valid_json_witness : writable witness_table.
 Proof. exact ValidatorProofs.witness_writable. Qed.
 
